@@ -296,11 +296,6 @@ def classify_rewind_probe(ev, pre, ref, k, tainted):
     if tainted:
         ev.counters["probe:rewind_after_failed_step"] += 1
         return
-    lo = pre.get("last_opcode")
-    try:
-        lo = int(lo)
-    except (TypeError, ValueError):
-        return
     if k < len(ref.probes) and k >= 1:
         p = ref.probes[k - 1]
         if p and p.get("next") == "op":
